@@ -624,8 +624,11 @@ func (mf *MultiFileAppendable) appendableForOnce(off int64) (appendable.Appendab
 	if appID == mf.currAppID {
 		metricsCacheHit.Inc()
 		mf.maybePrefetchAheadLocked(appID)
+		// read currApp while the mutex is held: a concurrent Append may
+		// rotate to the next chunk as soon as the mutex is released
+		app := mf.currApp
 		mf.mutex.Unlock()
-		return mf.currApp, nil
+		return app, nil
 	}
 
 	// Cache hit fast path.
